@@ -323,7 +323,30 @@ func judgeLeftover(prop, name string, r *RunOut, huge bool, o *Obs) {
 			o.add(name, prop+":stranded:"+l.Role+"@"+l.Op, fmt.Sprintf("%s#%d parked forever at %s (%s) after the call returned", l.Role, l.Ordinal, l.Site, l.Op))
 		}
 	case "grace-yields", "grace-time", "grace-decisions", "yield-budget", "decision-budget", "time-budget":
+		// A channel producer (iterator.ToChan) that keeps iterating after its consumer has
+		// gone keeps its whole upstream pipeline busy, including the workers of parallel
+		// stages in it: those are driven by the producer, not independently busy. Report
+		// the producer only; pipelines without a channel producer (the majority of the
+		// generated cases) cannot use this attribution.
+		driver := false
+		var total int64
 		for _, l := range res.Leftover {
+			total += l.YieldsAfterRoot
+		}
+		for _, l := range res.Leftover {
+			if strings.Contains(l.Role, "iterator.ToChan") && total >= 1000 {
+				driver = true
+				o.add(name, prop+":background:"+l.Role, fmt.Sprintf("%s#%d has not terminated and keeps pulling its source (%s, %s) %s after the call returned; yields passed by leftover tasks since the return: %d",
+					l.Role, l.Ordinal, l.State, l.Op, res.End, total))
+			}
+		}
+		for _, l := range res.Leftover {
+			if driver {
+				if !strings.Contains(l.Role, "iterator.ToChan") {
+					o.tag("driven-by-channel-producer")
+				}
+				continue
+			}
 			// only tasks that were actually busy after the call returned: a task that is
 			// merely alive may have been starved by the busy one for the whole grace period
 			if l.State != "blocked" && l.YieldsAfterRoot >= 1000 {
@@ -528,7 +551,9 @@ func execC08(c *Case, sc *Script, o *Obs) {
 			}
 		}
 		got := clientOutcome(r)
-		if got.Done && !got.Ok && x.Term != "single" && x.FailAt > 0 && int64(x.FailAt-1) > bound {
+		if got.Done && !got.Ok && x.Term != "single" && x.FailAt > 0 && int64(x.FailAt-1) > bound && par && !x.Fair {
+			o.add(name, unboundedSig, fmt.Sprintf("element %d fails far behind the decisive element %d (bound %d) and its error surfaces: workers ran ahead", x.FailAt-1, x.Need, bound))
+		} else if got.Done && !got.Ok && x.Term != "single" && x.FailAt > 0 && int64(x.FailAt-1) > bound {
 			o.add(name, "C08:late-error-surfaced:"+mode+":"+x.Term, fmt.Sprintf("element %d fails, decisive element %d, bound %d: %s", x.FailAt-1, x.Need, bound, trunc(got.Err, 200)))
 		}
 		if got.Done && got.Y1-got.Y0 > maxNeeded {
